@@ -17,13 +17,14 @@ import (
 // truncate + two chunks; with seams on, the writer parks after the truncate and after the first chunk,
 // so a crash (or anything else) can land in between. Errors (ENOSPC, EIO, short write) are injectable.
 type Disk struct {
-	w       *World
-	files   map[string][]byte
-	seams   bool
-	failOp  string // "", "enospc", "eio", "short"
-	parked  chan struct{}
-	pending int // writers currently parked
-	dead    map[int]bool
+	w        *World
+	files    map[string][]byte
+	seams    bool
+	failOp   string // "", "enospc", "eio", "short"
+	failRead string // "", "eio", "eacces", "emfile": every read of the file fails
+	parked   chan struct{}
+	pending  int // writers currently parked
+	dead     map[int]bool
 }
 
 func newDisk(w *World) *Disk {
@@ -127,6 +128,15 @@ func (d *Disk) writeFile(name string, data []byte, _ os.FileMode) error {
 func (d *Disk) readFile(name string) ([]byte, error) {
 	full := name
 	name, _ = splitName(name)
+	d.w.mu.Lock()
+	fr := d.failRead
+	d.w.mu.Unlock()
+	if fr != "" {
+		errno := map[string]syscall.Errno{"eio": syscall.EIO, "eacces": syscall.EACCES, "emfile": syscall.EMFILE}[fr]
+		d.ev("read-fail", full, nil, false)
+		d.w.fault("disk:read-"+fr, full)
+		return nil, &fs.PathError{Op: "open", Path: name, Err: errno}
+	}
 	d.w.mu.Lock()
 	b, ok := d.files[name]
 	d.w.mu.Unlock()
